@@ -19,7 +19,7 @@ from . import classes as CL
 from . import concrete as CW
 from .common import run_cases, model_output, coq_nat, coq_q, coq_list, Q, REPO
 
-GEN_DEPS = ["Classes.v"]
+GEN_DEPS = ["Classes.v"]     # the composition theorems are about the regenerated class plans
 TRUSTED = [
     "Model/Method.v models only the recording of evaluations of LEAF functions at not-yet-evaluated points "
     "(reuse of evaluations and composite functions are property C07's model)",
@@ -48,7 +48,12 @@ def gen_program(rng):
     seen = [set() for _ in range(nf)]
     for _ in range(n):
         if npnt == 0 or rng.random() < 0.3:
-            ops.append(("fresh",))
+            if rng.random() < 0.3:
+                fs = rng.randrange(nf)
+                ops.append(("stat", fs))
+                seen[fs].add(((npnt, 1),))       # the stationary point itself counts as evaluated on fs
+            else:
+                ops.append(("fresh",))
             npnt += 1
             continue
         f = rng.randrange(nf)
@@ -82,6 +87,8 @@ def impl_program(nf, ops, rng_classes):
     for op in ops:
         if op[0] == "fresh":
             Point()
+        elif op[0] == "stat":
+            funcs[op[1]].stationary_point()
         else:
             _, f, comb = op
             p = None
@@ -114,6 +121,8 @@ def coq_program(nf, ops):
     for op in ops:
         if op[0] == "fresh":
             items.append("MFresh")
+        elif op[0] == "stat":
+            items.append("MStat %s" % coq_nat(op[1]))
         else:
             items.append("MEval %s %s" % (coq_nat(op[1]), model_point(op[2])))
     return "(%s, %s)" % (coq_nat(nf), coq_list(items))
@@ -123,7 +132,7 @@ def stream_recording(tier, seed):
     rng = random.Random(seed * 104729 + 9)
     n = 400 if tier == "quick" else 4000
     cases, progs = [], []
-    hist = {"fresh": 0, "eval": 0}
+    hist = {"fresh": 0, "eval": 0, "stat": 0}
     distinct = set()
     for i in range(n):
         nf, ops = gen_program(rng)
